@@ -5,6 +5,7 @@ Ghost state: G_accepted[sock] = bytes the OS has taken (appended only by the tru
 G_closed[sock]; P_read/P_write[poller] = the BasePoller registration sets (contract of C10).
 flat(buffer) = concatenation of the queued payloads.
 """
+import ast
 import z3
 from pyvc.core import *  # noqa
 from pyvc import core, lib
@@ -699,6 +700,89 @@ SPECS.append(FucSpec('C12', 'circuits/net/sockets.py', 'Server.close', any_setup
                      clause='NoResidue preserved by close(sock) for every socket'))
 
 
+# ----------------------------------------------------------------------------- Server.close() - the whole server
+# "a close requested while data is still buffered takes effect only after all of it has been written" holds for the argument-less
+# form too (also reached through the `stopped` event): every connection is judged by ITS OWN buffer.  Verified per iteration of the
+# loop over the listener and the clients (modular: an arbitrary element, an arbitrary state satisfying the representation invariants).
+def srv_close_all_setup(I):
+    self, sock = srv_objs(I)
+    I.st.ghost['WITNESS'] = sock
+    return {'self': self, 'sock': NONE}
+
+
+def _loop_var(I):
+    for n in ast.walk(I.fnode):
+        if isinstance(n, ast.For) and isinstance(n.target, ast.Name):
+            return I.local(n.target.id)
+    raise core.Unsupported('no for loop with a simple target in Server.close')
+
+
+def close_all_body(I):
+    I.st.ghost['CLOSE_CALLS'] = []
+    I.st.ghost['ITER_PRE'] = I.st.snapshot()
+    x = lib.unopt(I, _loop_var(I))
+    self = I.local('self')
+    b = buf_of(I, self, x)
+    I.assume(b.lo <= b.hi)
+    y = core.fresh('y', core.RefSort())
+    for f in ('_clients', '_closeq'):
+        a_ = I.field(self, f).arr
+        I.assume(z3.ForAll([y], z3.And(z3.Select(a_, y) >= 0, z3.Select(a_, y) <= 1)), 'rep invariant: %s has no duplicates' % f)
+    I.st.ghost['ITER_PRE'] = I.st.snapshot()
+
+
+def close_all_iter(I):
+    self = I.local('self')
+    x = lib.unopt(I, _loop_var(I))
+    pre = I.st.ghost['ITER_PRE']
+    closes = I.st.ghost.get('CLOSE_CALLS', [])
+    b0 = lib.dict_get_slot(I, heap_dict(I, pre, self), x)[1]
+    has_items = z3.And(z3.Select(heap_dict(I, pre, self).dom, x.t), b0.hi > b0.lo)
+    cover(I, 'iteration')
+    I.oblige('each_connection_judged_by_its_own_buffer.deferred_while_buffered',
+             z3.Implies(has_items, z3.BoolVal(len(closes) == 0)),
+             detail='close() with data still queued for this connection must not close it now (%d _close calls in the iteration)' % len(closes))
+    I.oblige('each_connection_judged_by_its_own_buffer.marked_for_closing',
+             z3.Implies(z3.And(has_items, in_clients(I, self, x, pre)), z3.Select(I.field(self, '_closeq').arr, x.t) > 0))
+    I.oblige('each_connection_judged_by_its_own_buffer.queued_bytes_kept', z3.Implies(has_items, pending(I, self, x) == pending(I, self, x, pre)))
+    I.oblige('each_connection_judged_by_its_own_buffer.drained_connection_closed_now',
+             z3.Implies(z3.Not(has_items), z3.BoolVal(len(closes) == 1 and closes[0] is not None) if len(closes) != 1 else
+                        lib.unopt(I, closes[0]).t == x.t),
+             detail='a connection with nothing queued is closed at once, and it is THIS connection that is closed')
+    I.oblige('close_sends_nothing', accepted(I, x) == accepted(I, x, pre))
+
+
+def close_all_entry(I):
+    """the loop runs over the listener and every client"""
+    it = I.frame.env.get('__iter0')
+    self = I.local('self')
+    w = I.st.ghost['WITNESS']
+    cl0 = I.field(self, '_clients')
+    if isinstance(it, VBag):
+        I.oblige('every_connection_is_visited', z3.Implies(z3.Select(cl0.arr, w.t) > 0, z3.Select(it.arr, w.t) > 0))
+    elif isinstance(it, VSet):
+        I.oblige('every_connection_is_visited', z3.Implies(z3.Select(cl0.arr, w.t) > 0, z3.Select(it.arr, w.t)))
+
+
+def close_all_post(I, outcome, ctx):
+    if no_escape(I, outcome):
+        return
+    cover(I, 'return')
+    fired = [e for e in I.st.ghost.get('FIRED', []) if isinstance(e, VCons) and e.tag == 'closed']
+    I.oblige('closed_announced_once', z3.BoolVal(len(fired) == 1), detail='%d closed events' % len(fired))
+
+
+SPECS.append(FucSpec('C11', 'circuits/net/sockets.py', 'Server.close', srv_close_all_setup, close_all_post, fields=SRV_FIELDS,
+                     calls=dict(BASE_CALLS, **{'self._close': s_srv_close_summary}), cover=['return', 'iteration'],
+                     name='Server.close[whole server]',
+                     loops={0: LoopSpec(inv=[('true', lambda I: z3.BoolVal(True))], modular=True, entry_hook=close_all_entry,
+                                        body_hook=close_all_body, iter_hook=close_all_iter,
+                                        havoc_fields=['_buffers', '_clients', '_closeq', '_sock', '_Server__starttls', 'P_read', 'P_write', 'G_closed'])},
+                     clause='close() without a socket (also the reaction to `stopped`): the listener and every connection are visited and '
+                            'each is judged by its own buffer - data queued: not closed now, marked, queue untouched; nothing queued: '
+                            'closed at once'))
+
+
 # ----------------------------------------------------------------------------- Server._read / _on_accept_done / _on_disconnect
 def s_srv_close_handler_summary(I, recv, args, kw):
     """contract of Server.close(sock) at the call in _read (deferred or immediate close); recorded for the post"""
@@ -1235,3 +1319,18 @@ SPECS.append(FucSpec('C12', 'circuits/net/sockets.py', 'Server._accept', acc_set
                      cover=['return', 'accepted', 'refused_soft', 'refused_hard'],
                      clause='_accept (plain-text server): every connection accept() returns is handed to _on_accept_done exactly once '
                             '(which fires the one connect); an accept() that raises hands over nothing; only an unexpected errno escapes'))
+
+
+# ----------------------------------------------------------------------------- C12 through the pollers
+# "received bytes as read events in order without loss ... whichever poller is used": the byte stream of a connection reaches the
+# server only through the poller's _read events; a descriptor reported readable must get its _read event (also when the same report
+# carries an error or hang-up bit: the pending input is read first, the following recv() then reports the end).  The emission
+# contracts of the three pollers (proved in contracts.pollers for C10) are obligations of C12 as well.
+import copy as _copy                       # noqa: E402
+from contracts import pollers as _pl       # noqa: E402
+for _s in _pl.SPECS:
+    if _s.prop == 'C10' and getattr(_s, 'name', '') in ('Poll._process', 'EPoll._process', 'Select._generate_events',
+                                                        'Poll._generate_events', 'EPoll._generate_events'):
+        _c = _copy.copy(_s)
+        _c.prop = 'C12'
+        SPECS.append(_c)
